@@ -338,6 +338,20 @@ def oracle_case(i, seed):
             dev = float(np.abs(c - b).max() / np.abs(b).max())
             if not (dev <= 2e-5):
                 viol.append(_v("C10:equal-axes-spheroid", "spheroid with equal semi-axes (rotation %s) differs from the sphere by %.3g" % (np.round(rot, 3).tolist(), dev), dict(rot=list(rot), **info)))
+            # other ways of writing the polarisation: the wrapper documents that it accepts only (1, 0); whatever else it accepts must
+            # give the field of THAT polarisation (Lorenz-Mie's), and a refusal is a Python exception
+            for polv in ((-1.0, 0.0), (-3.0, 1e-14), (2.0, 0.0), (1.0, 1e-13), (1, 0)):
+                tried.append(_t("sphere-limit-polarisation", (round(x, 5), polv[0], polv[1])))
+                try:
+                    ap = vec(calc_field(pts, sc, illum_polarization=polv, theory=Tmatrix(), **opt))
+                except Exception:
+                    continue
+                bp = vec(calc_field(pts, sc, illum_polarization=polv, theory=Mie(False, False), **opt))
+                dev = float(np.abs(ap - bp).max() / np.abs(bp).max())
+                if not (dev <= 2e-5):
+                    viol.append(_v("C10:sphere-limit:polarisation", "sphere x=%.3g, polarisation %r: Tmatrix accepts it and returns a field that differs from Lorenz-Mie's for that polarisation by %.3g of the peak" % (x, polv, dev),
+                                   dict(pol=list(polv), **info)))
+                    break
             # a size sweep in small steps, in any unit of length (micrometres, metres, nanometres), in ONE interpreter: what was
             # computed for one particle must not be reused for its neighbour in the sweep
             unit = [1e-6, 1.0, 1e3, 1e-6, 1e-3][(i // 5) % 5]      # metres in every run: absolute tolerances hide there
